@@ -643,6 +643,8 @@ class Oracle:
                     continue
                 if g is not None: self.assess(k, g, self._tns_of_decl(g), tags)
                 elif leaf.pc == 'strict': tags.add('strict-undeclared')
+                elif any(x.xsi_nil is not None or x.xsi_type is not None for x in all_nodes(k)):
+                    self.flags.add('ambiguous:xsi-in-lax-undeclared')      # lax assessment honours xsi:type: partial-declaration territory, not generated
     def _simple_content(self, node, d, tname, tags):
         text = node.text()
         if text == '' and not node.children:
@@ -1159,7 +1161,7 @@ def mutate_schema_text(text, kind, tnsprefix):
     if kind == 'unresolved-base':
         return text.replace('</xs:schema>', '  <xs:complexType name="ZZ"><xs:complexContent><xs:extension base="%sNoSuchBase"/></xs:complexContent></xs:complexType>\n</xs:schema>' % q)
     if kind == 'dup-attribute':
-        m = re.search(r'( *)<xs:attribute name="([^"]*)" type="xs:([A-Za-z]*)"', text)
+        m = re.search(r'( *)<xs:attribute name="([^"]*)" type="xs:([A-Za-z]*)"(?! form=)', text)      # the copy is unqualified: must collide with an unqualified original
         if not m: return None
         return text[:m.start()] + '%s<xs:attribute name="%s" type="xs:%s"/>\n' % (m.group(1), m.group(2), m.group(3)) + text[m.start():]
     if kind == 'all-in-sequence':
